@@ -39,6 +39,10 @@ CLAIMED['C07'] = ('exploration', 'deterministic simulation: seeded channel param
     'Seeded search over MTU/MPS/initial credits per side, LE CoC and enhanced CoC, initiator, 1-3 channels, write-size sequences in both directions at once, latency profiles; in about half of the runs the peer is a reference LE CoC endpoint with top-down CID allocation and its own credit-return granularity. Oracle: byte streams equal in both directions, every data frame covered by a credit at the sender boundary, frame <= peer MPS, SDU <= peer MTU, credits <= 65535, transfer completes while there is wire activity (stall = 30 virtual seconds of silence), drain() returns. Sampling, not proof.',
     'Trusted: the reference peer (bsim/rawpeer.py, written from Core Vol 3 Part A); per-run data volume <= 60 KB (quick) / 200 KB (thorough).', 'DESIGN.md §5 C07')
 
+CLAIMED['C08'] = ('exploration', 'deterministic simulation: seeded channel specs and SDU sequences over a BR/EDR link, wire-level ERTM monitor, set-up matrix',
+    'Seeded search over mode (Basic/ERTM), MTU, MPS (down to 23), transmit window 1..63, FCS requested by neither/one/both ends, SDU size sequences in both directions including >64 segments and exactly k*MPS, latency profiles. Wire monitor at each sender boundary: TxSeq advances by one mod 64, unacknowledged I-frames <= the window the peer advertised, SAR pattern consistent with the announced SDU length, payload <= peer MPS, FCS verified by an independent CRC-16; every SDU delivered once, intact, in order. Set-up scenario: all pairs of (mode, FCS request, FCS feature) incl. mismatching modes must end with both ends open in the same mode and FCS setting (and data flows) or both closed with an error to the caller; never a hang or a configuration ping-pong. Sampling, not proof.',
+    'Trusted: latency below the 2 s retransmission timer; no loss (ERTM retransmission paths are not exercised: the property speaks of order-preserving delays only); an endpoint that requests FCS has the FCS feature; peer is bumble.', 'DESIGN.md §5 C08')
+
 NOT_YET = {}
 
 
